@@ -17,7 +17,56 @@ fn mask_of(line: &str, model: bool) -> Vec<char> {
         .collect()
 }
 
+/// relational run `c05_i64 w=.. mp=.. xs=<small integers>`: `ts_vminmaxnorm` on a `Vec<i64>` whose
+/// values are 1.7e18 + xs (epoch nanoseconds: above 2^53, neighbours closer than the f64 spacing). The
+/// element type has no null, so every position with `min(i + 1, w) >= min_periods` whose window is
+/// not constant must carry `(v - min) / (max - min)` computed exactly on the offsets, every other
+/// position a null. `OK` | `NE:<position>:<got>:<expected>` | `P`
+pub fn run(r: &Req) -> Option<String> {
+    if r.f != "c05_i64" {
+        return None;
+    }
+    use tevec::prelude::*;
+    let offs: Vec<i64> = r.list("xs").iter().map(|t| t.parse::<i64>().unwrap_or(0)).collect();
+    let (w, mp) = (r.usize("w"), r.opt_usize("mp"));
+    let base: i64 = 1_700_000_000_000_000_000;
+    let data: Vec<i64> = offs.iter().map(|o| base + o).collect();
+    let got: Vec<f64> = match std::panic::catch_unwind(|| data.ts_vminmaxnorm::<Vec<f64>, f64>(w, mp)) {
+        Ok(g) => g,
+        Err(_) => return Some("P".into()),
+    };
+    if got.len() != offs.len() {
+        return Some(format!("NE:len:{}:{}", got.len(), offs.len()));
+    }
+    let need = mp.unwrap_or(w / 2).min(w);
+    for i in 0..offs.len() {
+        let lo = (i + 1).saturating_sub(w);
+        let win = &offs[lo..=i];
+        let (mut mn, mut mx) = (win[0], win[0]);
+        for x in win {
+            if *x < mn {
+                mn = *x;
+            }
+            if *x > mx {
+                mx = *x;
+            }
+        }
+        let want = if win.len() >= need && mx != mn { Some((offs[i] - mn) as f64 / (mx - mn) as f64) } else { None };
+        let ok = match want {
+            None => got[i].is_nan(),
+            Some(x) => (got[i] - x).abs() <= 1e-12,
+        };
+        if !ok {
+            return Some(format!("NE:{}:{:e}:{}", i, got[i], want.map(|x| format!("{:e}", x)).unwrap_or("null".into())));
+        }
+    }
+    Some("OK".into())
+}
+
 pub fn compare(r: &Req, imp: &str, model: &str) -> bool {
+    if r.f == "c05_i64" {
+        return imp == model;
+    }
     let a = mask_of(imp, false);
     let b = mask_of(model, true);
     if r.s("o") == "i32" {
@@ -29,6 +78,9 @@ pub fn compare(r: &Req, imp: &str, model: &str) -> bool {
 }
 
 pub fn valid_case(r: &Req) -> bool {
+    if r.f == "c05_i64" {
+        return r.usize("w") >= 1 && r.list("xs").iter().all(|t| t.parse::<i64>().is_ok());
+    }
     let Some(f) = find(&r.f) else { return false };
     let w = r.usize("w");
     let len = r.list("xs").len();
@@ -56,6 +108,16 @@ pub fn generate(tier: &str, _rng: &mut Rng) -> (Vec<String>, bool) {
     let backends = crate::backends::BACKENDS_SIZED;
     let mut out = vec![];
     let mut k = 0usize;
+    // 64-bit integers above 2^53 (relational run): every series over {0,1,3,5} to length 4, windows 1..=len+1
+    for len in 1..=4usize {
+        for xs in crate::cases::all_series(&["0", "1", "3", "5"], len) {
+            for w in 1..=len + 1 {
+                for mp in [None, Some(1usize), Some(w)] {
+                    out.push(format!("c05_i64 w={} mp={} xs={}", w, mp_tok(mp), crate::cases::join(&xs)));
+                }
+            }
+        }
+    }
     for f in ROLL {
         for len in 0..=maxlen {
             // null patterns: every subset of positions (plain family: no nulls)
@@ -134,7 +196,7 @@ pub fn generate(tier: &str, _rng: &mut Rng) -> (Vec<String>, bool) {
 }
 
 pub fn rule(tier: &str) -> String {
-    format!("mask-only comparison (length + null/non-null pattern; zero-denominator positions accept either) of all {} catalogued rolling entry points: exhaustive over len 0..={} (incl. len < w and empty), window 1..=len+3, min_periods 0..=w and omitted (extrema/rank family: omitted only for len >= w), every null subset; the 14 sized input backends rotated round-robin. non-trivial = len >= 2 with a non-null output.", ROLL.len(), if tier == "thorough" { 7 } else { 5 })
+    format!("relational run c05_i64: ts_vminmaxnorm on Vec<i64> = 1.7e18 + every series over {{0,1,3,5}} to length 4, windows 1..=len+1, min_periods omitted / 1 / w, against the exact value on the offsets (64-bit integers above 2^53; no null exists, so the null pattern is the warm-up and the constant windows). Mask-only comparison (length + null/non-null pattern; zero-denominator positions accept either) of all {} catalogued rolling entry points: exhaustive over len 0..={} (incl. len < w and empty), window 1..=len+3, min_periods 0..=w and omitted (extrema/rank family: omitted only for len >= w), every null subset; the 14 sized input backends rotated round-robin. non-trivial = len >= 2 with a non-null output.", ROLL.len(), if tier == "thorough" { 7 } else { 5 })
 }
 
 /// F35: ts_vmin / ts_vmax with an integer output element type panic on a masked slot
